@@ -1944,6 +1944,24 @@ int EGLPNUM_TYPENAME_ILLlib_chgsense (
 	EGLPNUM_TYPENAME_ILLlpdata *qslp = lp->O;
 	EGLPNUM_TYPENAME_ILLmatrix *A = &(lp->O->A);
 
+	/* validate the whole request before touching anything */
+	for (i = 0; i < num; i++)
+	{
+		if (rowlist[i] < 0 || rowlist[i] >= qslp->nrows)
+		{
+			QSlog("EGLPNUM_TYPENAME_ILLlib_chgsense called with bad row index: %d",
+									rowlist[i]);
+			rval = 1;
+			ILL_CLEANUP;
+		}
+		if (sense[i] != 'R' && sense[i] != 'E' && sense[i] != 'G' && sense[i] != 'L')
+		{
+			QSlog("illegal sense %c in EGLPNUM_TYPENAME_ILLlib_chgsense", sense[i]);
+			rval = 1;
+			ILL_CLEANUP;
+		}
+	}
+
 	for (i = 0; i < num; i++)
 	{
 		j = qslp->rowmap[rowlist[i]];
